@@ -503,30 +503,30 @@ class Grid:
                     possible_metric_vars = [
                         self._metrics[ac] for ac in axis_combinations
                     ]
-                    for possible_combinations in itertools.product(
-                        *possible_metric_vars
-                    ):
-                        metric_dims = set(
-                            [d for mv in possible_combinations for d in mv.dims]
-                        )
-                        if metric_dims.issubset(array_dims):
+                    # choose for each block of the partition separately: the metric located at the
+                    # array's position if there is one, otherwise interpolate one to that position
+                    chosen_metrics = []
+                    for block_metrics in possible_metric_vars:
+                        if len(block_metrics) == 0:
+                            raise KeyError(axis_combinations)
+                        at_position = [
+                            mv for mv in block_metrics if set(mv.dims).issubset(array_dims)
+                        ]
+                        if at_position:
                             # Condition 3: use provided metrics with matching dimensions to calculate for required metric
-                            metric_vars = possible_combinations
-                            break
+                            chosen_metrics.append(at_position[0])
                         else:
                             # Condition 4: metrics in the wrong position (must interpolate before multiplying)
-                            possible_dims = [pc.dims for pc in possible_combinations]
+                            mv = block_metrics[-1]
                             warnings.warn(
-                                f"Metric at {array.dims} being interpolated from metrics at dimensions {possible_dims}. Boundary value set to 'extend'."
+                                f"Metric at {array.dims} being interpolated from metrics at dimensions {mv.dims}. Boundary value set to 'extend'."
                             )
-                            metric_vars = tuple(
-                                self.interp_like(pc, array, "extend", None)
-                                for pc in possible_combinations
+                            chosen_metrics.append(
+                                self.interp_like(mv, array, "extend", None)
                             )
-                    if metric_vars is not None:
-                        # return the product of the metrics
-                        metric_vars = functools.reduce(operator.mul, metric_vars, 1)
-                        break
+                    # return the product of the metrics
+                    metric_vars = functools.reduce(operator.mul, chosen_metrics, 1)
+                    break
                 except KeyError:
                     pass
         if metric_vars is None:
